@@ -318,6 +318,15 @@ impl<'a> Sim<'a> {
                     let other = SignKey::from_seed([9u8; 32], "0");
                     let _ = revent::sign_json(&mut signed, "id.example", &other);
                 }
+                if self.t.chance(1, 3) {
+                    // further entities under the same key id whose signatures verify under no key
+                    let other = SignKey::from_seed([9u8; 32], "0");
+                    for ent in ["aa.example", "zz.example"] {
+                        if self.t.chance(1, 2) {
+                            let _ = revent::sign_json(&mut signed, ent, &other);
+                        }
+                    }
+                }
                 content.set("third_party_invite", o(vec![("display_name", J::s("x")), ("signed", signed)]));
             }
             8 => (ty, sk, content) = ("m.room.power_levels".into(), Some("".into()), gen::gen_power_levels(self.t, view, &actor, true)),
@@ -340,7 +349,13 @@ impl<'a> Sim<'a> {
             }
             13 => {
                 ty = "org.x.user_state".into();
-                sk = Some(if self.t.chance(1, 2) { actor.clone() } else { target.clone() });
+                sk = Some(match self.t.below(6) {
+                    0 | 1 => actor.clone(),
+                    2 | 3 => target.clone(),
+                    // starts with '@' without being anybody's user id: still "another user's" key
+                    4 => (*self.t.pick(&["@", "@alice", "@alice:", "@:x", "@é:example.org"])).to_string(),
+                    _ => format!("{actor}x"),
+                });
                 content = o(vec![("x", J::Int(1))]);
             }
             14 => (ty, sk, content) = ((*self.t.pick(&["m.room.name", "m.room.topic", "org.x.custom"])).into(), Some("".into()), o(vec![("name", J::s("n"))])),
@@ -707,6 +722,10 @@ impl<'a> Sim<'a> {
             let k = self.t.pick(top).to_string();
             ev.insert(k, gen::gen_json(self.t, 2));
         }
+        if self.t.chance(1, 3) {
+            // an `unsigned` as servers really attach it
+            ev.insert("unsigned".into(), o(vec![("age_ts", J::Int(1_600_000_000_000)), ("replaces_state", J::s("$old:x")), ("age", J::Int(5)), ("prev_content", o(vec![("x", J::Int(1))]))]));
+        }
         let input = J::Obj(ev);
         let Some(obj) = conv::j_to_obj(&input) else { return };
         let model = revent::redact(&input, v);
@@ -827,7 +846,7 @@ impl<'a> Sim<'a> {
         // tamper classes
         let mut tampered = obj.clone();
         let mut tkeys = keys.clone();
-        let class = self.t.below(8);
+        let class = self.t.below(9);
         let cname = match class {
             0 => {
                 tampered.set("zz_added", J::Int(1));
@@ -890,6 +909,14 @@ impl<'a> Sim<'a> {
                 tampered.set("signatures", sigs);
                 tkeys.entry(ghost.into()).or_default().insert("ed25519:1".into(), self.idserver.public().to_vec());
                 "extra-entity"
+            }
+            8 => {
+                // an extra entity for which no key is supplied at all
+                let mut sigs = tampered.get("signatures").cloned().unwrap_or_else(J::obj);
+                let bogus = refmodel::rb64::encode_std(&[3u8; 64]);
+                sigs.set(if self.t.chance(1, 2) { "keyless.example" } else { "0keyless.example" }, o(vec![("ed25519:1", J::Str(bogus))]));
+                tampered.set("signatures", sigs);
+                "extra-entity-without-keys"
             }
             6 => {
                 // key order / spelling only: must not matter
